@@ -20,8 +20,12 @@
 
    The cases the property quantifies over are INITIAL STATES (families below, or shapes handed in through
    GIVEN_FILE: seeded random shapes and the shapes of real main-net transactions as parsed by the code).
-   TLC checks the laws on the model (invariants) and emits every case with the expected layout; the
-   driver renders the blobs with concrete bytes and compares with the real lbry.wallet.transaction. *)
+   TLC checks the laws on the model (invariants RoundTrip: Parse(Ser(tx)) = tx, all bytes consumed, and
+   Ser(Parse(b)) = b; SansWitness: the txid preimage parses to the same fields without witness, equals Ser
+   for legacy transactions and differs from it by exactly marker, flag and witness; Sizes: every prefix is the
+   length of what follows; PrimRound: compact size is the shortest form and reads back) and emits every case
+   with the expected layout; the driver renders the blobs with concrete bytes and compares with the real
+   lbry.wallet.transaction (harness/c05_txwire.py). *)
 EXTENDS Naturals, Sequences, SequencesExt, FiniteSets, TLC, Json, IOUtils
 
 CONSTANTS FAMILIES,    \* which case families to enumerate: subset of {"prim","values","counts","scriptlen","witness","given"}
@@ -52,7 +56,6 @@ Cat(ss) == CatR(ss, 1, Len(ss))
 LEBytes(v) == [i \in 1..(2 * Len(v)) |-> IF i % 2 = 1 THEN v[(i + 1) \div 2] % 256 ELSE v[i \div 2] \div 256]
 NatV(n) == <<n % 65536, n \div 65536, 0, 0>>               \* n < 2^31 as a 4-limb value
 VNat(v) == v[1] + 65536 * v[2]                            \* defined for values < 2^31
-FitsNat(v) == v[3] = 0 /\ v[4] = 0 /\ v[2] < 32768
 CS(v) == IF v[2] = 0 /\ v[3] = 0 /\ v[4] = 0 /\ v[1] < 253 THEN <<v[1]>>
          ELSE IF v[2] = 0 /\ v[3] = 0 /\ v[4] = 0 THEN <<253>> \o LEBytes(<<v[1]>>)
          ELSE IF v[3] = 0 /\ v[4] = 0 THEN <<254>> \o LEBytes(<<v[1], v[2]>>)
